@@ -181,3 +181,74 @@ func VerifC08_UnregisterInCallback() {
 	}
 	vreach("end")
 }
+
+// ---- C08-H3 (batch dispatch): a batch operation over several tables and rows with two
+// observers whose masks and flags are symbolic: observer i is called for entity e exactly
+// once iff the documented predicate holds for e's transition — the "early-out only for
+// the first entity of a table" optimisation must equal per-entity dispatch.
+func vBatchDispatch(add bool) {
+	W := vShapePlain(1, 60, 1)
+	vTighten(W.w)
+	evt := OnAddComponents
+	if !add {
+		evt = OnRemoveComponents
+	}
+	s := vArbObservers(evt, 2)
+	vassume(vpure(func() bool { return invObsIndices(s) }))
+	var count [2][vNE]int
+	for i := 0; i < 2; i++ {
+		i := i
+		s.obs[i].callback = func(e Entity) {
+			if j := W.indexOf(e); j >= 0 {
+				count[i][j]++
+			}
+		}
+	}
+	W.w.storage.observers = s.m
+	var sel [vNE]bool
+	var oldM, newM [vNE]bitMask
+	if add { // add T to everything that has A but not T: tables {A}, {A,B}, {A,P}
+		for j := 0; j < W.n; j++ {
+			sel[j] = W.e[j].alive && W.e[j].has[cA] && !W.e[j].has[cT]
+			oldM[j] = W.entMask(j)
+			newM[j] = oldM[j]
+			newM[j].Set(W.id[cT].id)
+		}
+		NewMap1[vTag](W.w).AddBatch(NewFilter1[vPos](W.w).Without(C[vTag]()).Batch(), &vTag{})
+	} else { // remove A from everything that has it
+		for j := 0; j < W.n; j++ {
+			sel[j] = W.e[j].alive && W.e[j].has[cA]
+			oldM[j] = W.entMask(j)
+			newM[j] = oldM[j]
+			newM[j].Clear(W.id[cA].id)
+		}
+		NewMap1[vPos](W.w).RemoveBatch(NewFilter1[vPos](W.w).Batch(), nil)
+	}
+	for i := 0; i < 2; i++ {
+		o := s.obs[i]
+		for j := 0; j < W.n; j++ {
+			if !sel[j] {
+				vcheck("batch/unaffected-entity-not-reported", count[i][j] == 0)
+				continue
+			}
+			j := j
+			p := vpure(func() bool {
+				compsOK := !o.hasComps
+				if add {
+					compsOK = compsOK || (vSubset(&o.compsMask, &newM[j]) && vDisjoint(&o.compsMask, &oldM[j]))
+				} else {
+					compsOK = compsOK || (vSubset(&o.compsMask, &oldM[j]) && vDisjoint(&o.compsMask, &newM[j]))
+				}
+				return compsOK && vWithOK(o, &oldM[j])
+			})
+			exp := 0
+			if p {
+				exp = 1
+			}
+			vcheck("batch/exact-fire-per-entity", count[i][j] == exp)
+		}
+	}
+	vreach("end")
+}
+func VerifC08T_BatchDispatchAdd()   { vBatchDispatch(true) }
+func VerifC08_BatchDispatchRemove() { vBatchDispatch(false) }
